@@ -358,4 +358,9 @@ def main_wrapper(fn, pid, tier, seed):
     except ToolError as e:
         log("TOOL-ERROR %s: %s" % (pid, e))
         rc = 2
+        if ctx.violations:
+            # what the real code was seen doing before the tool gave up is still reported
+            # (typically a binding self-test that cannot run on code that already misbehaves)
+            ctx.note("the run ended with a tool error after violations had been recorded: %s" % str(e)[:200])
+            rc = ctx.finish() or 2
     sys.exit(rc)
